@@ -15,7 +15,7 @@ func init() {
 		ID:    "C19",
 		Level: "exploration",
 		Race:  true,
-		Rule: "case = (2..16 clients, each a goroutine with its own statement list, ExecuteCtx, plans and literals; store topology private / shared read-only / shared read-write with per-client key prefixes; a pre-drawn schedule deciding, at every storage call, which client runs next). Each case is executed under the seeded token scheduler (race detector armed, hand-off invisible to it) and then again with the solo schedule; every statement's result must equal its solo result and no detector report may involve kvql frames. distinct_nontrivial counts distinct interleavings (hash of the realised who-runs-next trace) that contained at least one context switch.",
+		Rule:  "case = (2..16 clients, each a goroutine with its own statement list, ExecuteCtx, plans and literals; store topology private / shared read-only / shared read-write with per-client key prefixes; a pre-drawn schedule deciding, at every storage call, which client runs next). Each case is executed under the seeded token scheduler (race detector armed, hand-off invisible to it) and then again with the solo schedule; every statement's result must equal its solo result and no detector report may involve kvql frames. distinct_nontrivial counts distinct interleavings (hash of the realised who-runs-next trace) that contained at least one context switch.",
 		Assumptions: []string{
 			"amd64 (TSO) and Go's compiler reloading a package variable after a call: the token hand-off is a plain variable spin inside //go:norace functions",
 			"yield granularity is one storage call: interference that needs a context switch at a point that is not a storage call and leaves no state behind at the next one is not reachable",
@@ -29,14 +29,18 @@ func init() {
 			}
 			return 2000
 		},
-		Gen:    genC19,
-		Run:    runC19,
-		Shrink: shrinkC19,
+		Gen:        genC19,
+		Run:        runC19,
+		ShrinkLazy: shrinkC19,
 		Finish: func(st *Stats, cov map[string]any, tier string) string {
 			cov["race_detector_armed"] = raceEnabled
+			cov["library_yield_hooks_compiled"] = hooksBuilt
 			cov["distinct_interleavings"] = len(st.Distinct)
 			if !raceEnabled {
 				return "C19 must run from the -race build"
+			}
+			if !hooksBuilt {
+				return "C19 must be built with -tags verif (library yield hooks)"
 			}
 			return ""
 		},
@@ -91,11 +95,15 @@ func c19Stmt(r *Rng, c int, ro bool, scoped bool) Stmt {
 		func() string {
 			return "select key, strlen(value), is_int(value), float(value) + 0.5, lower(key) + '-' + " + quote(uniq) + " where " + scope
 		},
-		func() string { return "select quantile(float(value), 0.5), min(int(value)), max(int(value)) where " + scope },
+		func() string {
+			return "select quantile(float(value), 0.5), min(int(value)), max(int(value)) where " + scope
+		},
 		func() string {
 			return "select value, json_arrayagg(key) as ks where " + scope + " group by value order by value limit 4"
 		},
-		func() string { return "select key, join('-', key, value, " + uniq + ") as j where " + scope + " & j != 'x'" },
+		func() string {
+			return "select key, join('-', key, value, " + uniq + ") as j where " + scope + " & j != 'x'"
+		},
 		// failing statements: error constructors and renderers run concurrently too
 		func() string { return "select * where " + scope + " limit" },
 		func() string { return "selec" + uniq + " * where key = 'a'" },
@@ -171,7 +179,7 @@ func genC19(seed uint64, i int, tier string) *Scenario {
 	}
 	total := 0
 	for c := 0; c < n; c++ {
-		var cl Client
+		cl := Client{ID: c}
 		for s := 0; s < nst; s++ {
 			if len(common) > 0 && r.Chance(0.25) {
 				st := pick(r, common)
@@ -198,63 +206,73 @@ func genC19(seed uint64, i int, tier string) *Scenario {
 			}
 		}
 	}
-	// schedule: one entry per yield. Estimated yields: ~25 storage calls per statement.
-	L := total * 40
-	if L > 60000 {
-		L = 60000
+	// library-internal yield points (swarm: a random subset of sites per run)
+	if r.Chance(0.6) {
+		for _, site := range allHookSites {
+			if r.Chance(0.5) {
+				sc.HookSites = append(sc.HookSites, site)
+			}
+		}
+		sc.HookPerMil = pick(r, []int{5, 30, 150, 500})
 	}
-	sched := make([]int, L)
+	// per-client schedules: after client i's k-th storage call, who runs next
+	per := nst * 40
+	if per > 4000 {
+		per = 4000
+	}
+	cs := make([][]int, n)
 	kind := r.Intn(10)
-	switch {
-	case kind < 7:
-		p := pick(r, []float64{0.05, 0.3, 0.7, 1.0})
-		for j := range sched {
-			if r.Chance(p) {
-				sched[j] = r.Intn(n)
-			} else {
-				sched[j] = -1
-			}
-		}
-	case kind < 9:
-		// directed: client 0 runs alone up to its k-th call, then everybody else in turn, then random
-		k := r.Intn(total * 4)
-		for j := range sched {
+	p := pick(r, []float64{0.05, 0.3, 0.7, 1.0})
+	kcut := r.Intn(nst*4 + 1)
+	for c := 0; c < n; c++ {
+		cs[c] = make([]int, per)
+		for j := range cs[c] {
 			switch {
-			case j < k:
-				sched[j] = -1
-			case j == k:
-				sched[j] = 1 % n
-			default:
-				if r.Chance(0.1) {
-					sched[j] = r.Intn(n)
+			case kind < 7:
+				// random switch probability: long runs of one client ... fine-grained alternation
+				if r.Chance(p) {
+					cs[c][j] = r.Intn(n)
 				} else {
-					sched[j] = -1
+					cs[c][j] = -1
 				}
+			case kind < 9:
+				// directed: client 0 runs alone up to its k-th call, then hands over; sparse switches afterwards
+				switch {
+				case c == 0 && j < kcut:
+					cs[c][j] = -1
+				case c == 0 && j == kcut:
+					cs[c][j] = 1 % n
+				case r.Chance(0.1):
+					cs[c][j] = r.Intn(n)
+				default:
+					cs[c][j] = -1
+				}
+			default:
+				// everybody reaches its first storage call before anyone proceeds, then round robin
+				cs[c][j] = (c + 1) % n
 			}
-		}
-	default:
-		// everybody reaches its first storage call before anyone proceeds, then round robin
-		for j := range sched {
-			sched[j] = (j + 1) % n
 		}
 	}
-	sc.Schedule = sched
+	sc.CSched = cs
 	return sc
 }
 
 type multiRes struct {
-	res      [][]StmtRes
-	dumps    [][]KV
-	traceH   uint64
-	yields   int
-	switches int
-	steps    int
-	polls    int
-	faults   int
+	res                      [][]StmtRes
+	dumps                    [][]KV
+	traceH                   uint64
+	yields                   int
+	switches                 int
+	steps                    int
+	polls                    int
+	faults                   int
+	hookYields, hookSwitches int
+	perSite                  [len(allHookSites)]int32
 }
 
-// runClients executes the scenario under the given schedule (nil = solo).
-func runClients(sc *Scenario, schedule []int) *multiRes {
+// runClients executes the scenario under its schedules (concurrent) or with
+// the solo schedule (every client to completion, one after the other).
+func runClients(sc *Scenario, concurrent bool) *multiRes {
 	n := len(sc.Clients)
 	setKnobs(sc.Cfg)
 	cores := make([]*Core, n)
@@ -263,7 +281,7 @@ func runClients(sc *Scenario, schedule []int) *multiRes {
 		for c := 0; c < n; c++ {
 			var mine []KV
 			for _, kv := range sc.Init {
-				if strings.HasPrefix(kv.K, clientPrefix(c)) {
+				if strings.HasPrefix(kv.K, clientPrefix(sc.Clients[c].ID)) {
 					mine = append(mine, kv)
 				}
 			}
@@ -284,14 +302,28 @@ func runClients(sc *Scenario, schedule []int) *multiRes {
 		handles[c] = NewHandle(cores[c], c, cf, sc.Cfg.Lazy, fmt.Sprintf("c%d", c))
 		handles[c].yield = schedYield
 	}
-	s32 := make([]int32, len(schedule))
-	for i, v := range schedule {
-		s32[i] = int32(v)
+	ids := make([]int32, n)
+	cs32 := make([][]int32, n)
+	for c := 0; c < n; c++ {
+		ids[c] = int32(sc.Clients[c].ID)
+		if concurrent && c < len(sc.CSched) {
+			cs32[c] = make([]int32, len(sc.CSched[c]))
+			for i, v := range sc.CSched[c] {
+				cs32[c][i] = int32(v)
+			}
+		}
 	}
 	trace := make([]int32, 70000)
 	out := &multiRes{res: make([][]StmtRes, n)}
 	cfg := sc.Cfg
-	runUnderScheduler(n, s32, trace, 0, func(c int) {
+	if !concurrent {
+		schedSetHooks(nil, 0, 0) // solo: no switches anywhere
+	} else {
+		schedSetHooks(sc.HookSites, sc.HookPerMil, sc.Seed|1)
+	}
+	installHook()
+	defer removeHook()
+	runUnderSchedulerX(n, nil, trace, 0, func() { schedSetPerClient(ids, cs32) }, func(c int) {
 		stmts := sc.Clients[c].Stmts
 		rs := make([]StmtRes, 0, len(stmts))
 		for i, st := range stmts {
@@ -301,6 +333,7 @@ func runClients(sc *Scenario, schedule []int) *multiRes {
 	})
 	y, sw, nt := schedCounters()
 	out.yields, out.switches = y, sw
+	out.hookYields, out.hookSwitches, out.perSite = schedHookCounters()
 	for c := 0; c < n; c++ {
 		out.faults += len(handles[c].fired)
 	}
@@ -388,20 +421,27 @@ func raceFrames(rep string) (kv []string, harnessOnly bool) {
 func runC19(sc *Scenario, st *Stats) []Violation {
 	var vs []Violation
 	newRaceReports() // discard anything older
-	conc := runClients(sc, sc.Schedule)
+	conc := runClients(sc, true)
 	st.Evaluations++
 	st.Steps += conc.steps
 	st.Polls += conc.polls
 	st.Add("yields", conc.yields)
 	st.Add("context_switches", conc.switches)
 	st.Add("fault_fired:err(any kind, concurrent run)", conc.faults)
+	st.Add("library_yield_points_reached", conc.hookYields)
+	st.Add("context_switches_at_library_yield_points", conc.hookSwitches)
+	for i, n := range conc.perSite {
+		if n > 0 {
+			st.Add("yield_site:"+allHookSites[i], int(n))
+		}
+	}
 	st.Inc(fmt.Sprintf("clients:%d", len(sc.Clients)))
 	st.Inc("topology:" + sc.Topology)
-	if conc.switches > 0 {
+	if conc.switches+conc.hookSwitches > 0 {
 		st.Seen(fmt.Sprintf("%x", conc.traceH))
 	}
 	reps := newRaceReports()
-	solo := runClients(sc, nil)
+	solo := runClients(sc, false)
 	st.Evaluations++
 	st.Steps += solo.steps
 	reps = append(reps, newRaceReports()...)
@@ -477,52 +517,139 @@ func firstTexts(ss []Stmt, n int) []string {
 	return out
 }
 
-func shrinkC19(sc *Scenario) []*Scenario {
-	var out []*Scenario
-	// drop clients from the end (keeps prefixes stable)
-	if len(sc.Clients) > 2 {
-		c := cloneScenario(sc)
-		c.Clients = c.Clients[:len(c.Clients)-1]
-		remap(c)
-		out = append(out, c)
+// shrinkC19 proposes one candidate at a time (each is a copy of a large
+// scenario, so none is built before it is needed): fewer clients (halves,
+// pairs, one less), fewer statements, fewer yield sites, no faults, fewer
+// context switches.
+func shrinkC19(sc *Scenario, try func(*Scenario) bool) {
+	nc := len(sc.Clients)
+	keep := func(idx ...int) bool {
+		c := cloneScenarioLight(sc)
+		var cs []Client
+		var cf [][]Fault
+		var sch [][]int
+		for _, i := range idx {
+			cs = append(cs, sc.Clients[i])
+			if i < len(sc.CFaults) {
+				cf = append(cf, sc.CFaults[i])
+			}
+			if i < len(sc.CSched) {
+				sch = append(sch, sc.CSched[i])
+			}
+		}
+		c.Clients = cs
+		c.CFaults = nil
+		if len(sc.CFaults) > 0 {
+			c.CFaults = cf
+		}
+		c.CSched = sch
+		return try(c)
 	}
-	// halve each client's statement list, then drop single statements
+	if nc > 2 {
+		var a, b []int
+		for i := 0; i < nc; i++ {
+			if i < nc/2 {
+				a = append(a, i)
+			} else {
+				b = append(b, i)
+			}
+		}
+		if keep(a...) || keep(b...) {
+			return
+		}
+		for i := 0; i < nc; i++ {
+			for j := i + 1; j < nc; j++ {
+				if keep(i, j) {
+					return
+				}
+			}
+		}
+		for d := 0; d < nc; d++ {
+			var rest []int
+			for i := 0; i < nc; i++ {
+				if i != d {
+					rest = append(rest, i)
+				}
+			}
+			if keep(rest...) {
+				return
+			}
+		}
+	}
+	// statements: halves of each client's list, then single statements
+	withStmts := func(ci int, st []Stmt) bool {
+		c := cloneScenarioLight(sc)
+		c.Clients = append([]Client{}, sc.Clients...)
+		c.Clients[ci] = Client{ID: sc.Clients[ci].ID, Stmts: st}
+		return try(c)
+	}
 	for ci := range sc.Clients {
-		n := len(sc.Clients[ci].Stmts)
-		if n > 1 {
-			c := cloneScenario(sc)
-			c.Clients[ci].Stmts = c.Clients[ci].Stmts[:n/2]
-			out = append(out, c)
-			c = cloneScenario(sc)
-			c.Clients[ci].Stmts = c.Clients[ci].Stmts[n/2:]
-			out = append(out, c)
+		st := sc.Clients[ci].Stmts
+		if n := len(st); n > 1 {
+			if withStmts(ci, st[:n/2]) || withStmts(ci, st[n/2:]) {
+				return
+			}
 		}
 	}
 	for ci := range sc.Clients {
-		out = append(out, shrinkStmts(sc, ci, false)...)
-	}
-	// fewer context switches: replace a schedule entry by "keep running"
-	for i, v := range sc.Schedule {
-		if v >= 0 && i < 400 {
-			c := cloneScenario(sc)
-			c.Schedule[i] = -1
-			out = append(out, c)
+		st := sc.Clients[ci].Stmts
+		for i := range st {
+			if len(st) <= 1 {
+				break
+			}
+			ns := append(append([]Stmt{}, st[:i]...), st[i+1:]...)
+			if withStmts(ci, ns) {
+				return
+			}
 		}
 	}
-	if len(sc.Schedule) > 8 {
-		c := cloneScenario(sc)
-		c.Schedule = c.Schedule[:len(c.Schedule)/2]
-		out = append(out, c)
+	for i := range sc.HookSites {
+		c := cloneScenarioLight(sc)
+		c.HookSites = append(append([]string{}, sc.HookSites[:i]...), sc.HookSites[i+1:]...)
+		if try(c) {
+			return
+		}
 	}
-	out = append(out, shrinkConfig(sc)...)
-	return out
+	if len(sc.CFaults) > 0 {
+		c := cloneScenarioLight(sc)
+		c.CFaults = nil
+		if try(c) {
+			return
+		}
+	}
+	for ci := range sc.CSched {
+		if len(sc.CSched[ci]) > 0 {
+			c := cloneScenarioLight(sc)
+			c.CSched = append([][]int{}, sc.CSched...)
+			c.CSched[ci] = sc.CSched[ci][:len(sc.CSched[ci])/2]
+			if try(c) {
+				return
+			}
+		}
+	}
+	for ci := range sc.CSched {
+		for i, v := range sc.CSched[ci] {
+			if v >= 0 && i < 40 {
+				c := cloneScenarioLight(sc)
+				c.CSched = append([][]int{}, sc.CSched...)
+				c.CSched[ci] = append([]int{}, sc.CSched[ci]...)
+				c.CSched[ci][i] = -1
+				if try(c) {
+					return
+				}
+			}
+		}
+	}
+	for _, c := range shrinkConfig(sc) {
+		if try(c) {
+			return
+		}
+	}
 }
 
-func remap(c *Scenario) {
-	n := len(c.Clients)
-	for i, v := range c.Schedule {
-		if v >= n {
-			c.Schedule[i] = v % n
-		}
-	}
+// cloneScenarioLight copies the scenario header; slices are shared with the
+// original and must be replaced, not modified, by the caller.
+func cloneScenarioLight(sc *Scenario) *Scenario {
+	c := *sc
+	return &c
 }
